@@ -427,13 +427,13 @@ int main(int argc, char** argv){
         }
 #endif
 #ifdef VF_C05
-        rep.spaces.push_back("uniform kernel: order in {4,6" + std::string(thorough ? ",3,5,7,8" : "") + "} x heights 1.." + std::to_string(maxH) + " x boxes x 4 particle sets x {double" + (thorough ? ",float" : "") + "} x groupings (block size 1 = one batch per child group vs single batch) x executors + linearity");
+        rep.spaces.push_back("uniform kernel: order in {4,5,6" + std::string(thorough ? ",3,7,8" : "") + "} x heights 1.." + std::to_string(maxH) + " x boxes x 4 particle sets x {double" + (thorough ? ",float" : "") + "} x groupings (block size 1 = one batch per child group vs single batch) x executors + linearity");
         for(int h = 1 ; h <= maxH ; ++h) for(int b = 0 ; b < 3 ; ++b) for(int s = 0 ; s < 5 ; ++s){
             if(rep.timeUp()){ rep.exhaustive = false; return; }
             if(!mine()) continue;
             if(thorough) evalConfig<double, K5<double,3>, 3>(h, b, s, rep, pg, thorough, ms);
             evalConfig<double, K5<double,4>, 4>(h, b, s, rep, pg, thorough, ms);
-            if(thorough) evalConfig<double, K5<double,5>, 5>(h, b, s, rep, pg, thorough, ms);
+            if(thorough || b < 2) evalConfig<double, K5<double,5>, 5>(h, b, s, rep, pg, thorough, ms);      // an odd order in the quick tier too
             evalConfig<double, K5<double,6>, 6>(h, b, s, rep, pg, thorough, ms);
             if(thorough){
                 evalConfig<double, K5<double,7>, 7>(h, b, s, rep, pg, thorough, ms);
